@@ -117,8 +117,8 @@ VARIANTS = [
     V('c10-stripws-first-child-blanked', 'C10', 'bad', 'R10.9', FO, "            if token.is_whitespace:\n                token.value = '' if last_was_ws else ' '\n            last_was_ws = token.is_whitespace\n", "            if token.is_whitespace:\n                token.value = '' if last_was_ws or token is tlist.tokens[0] else ' '\n            last_was_ws = token.is_whitespace\n", 'the defect fixed by 9dde7fa: the separator at the start of a nested list is removed'),
     V('c10-stripws-paren-minus2', 'C10', 'bad', 'R10.9', FO, "        cidx, _ = tlist.token_next_by(m=sql.Parenthesis.M_CLOSE)\n", "        cidx = len(tlist.tokens) - 1\n", 'the other half of 05f5255: ")" assumed to be the last child'),
     V('c15-accessor-no-guard', 'C15', 'bad', 'R15.6', S, "                try:\n                    if real_name:\n                        return token.get_real_name()\n                    return token.get_name()\n                except RecursionError as err:\n                    raise SQLParseError(\n                        'Maximum recursion depth exceeded') from err", "                if real_name:\n                    return token.get_real_name()\n                return token.get_name()", 'the defect fixed by a45b003'),
-    V('c18-cte-needs-identifier', 'C18', 'bad', 'R18.2', S, "                if token is not None and token.ttype == T.Keyword.DML:\n                    return token.normalized", "                if isinstance(token, (Identifier, IdentifierList)):\n                    tidx, token = self.token_next(tidx, skip_ws=True)\n                    if token is not None and token.ttype == T.Keyword.DML:\n                        return token.normalized", 'the defect fixed by 6660ed3'),
-    V('c18-cte-first-dml-any-level', 'C18', 'ok', None, S, "                if token is not None and token.ttype == T.Keyword.DML:\n                    return token.normalized", "                if token is None:\n                    break\n                if token.ttype == T.Keyword.DML:\n                    return token.normalized", 'explicit break'),
+    V('c18-cte-needs-identifier', 'C18', 'bad', 'R18.2', S, "                if (token is not None and token.ttype == T.Keyword.DML\n                        and not (prev_.ttype == T.Keyword.CTE\n                                 or prev_.match(T.Keyword, 'RECURSIVE')\n                                 or prev_.match(T.Punctuation, ','))):\n                    return token.normalized", "                if isinstance(token, (Identifier, IdentifierList)):\n                    tidx, token = self.token_next(tidx, skip_ws=True)\n                    if token is not None and token.ttype == T.Keyword.DML:\n                        return token.normalized", 'the defect fixed by 6660ed3'),
+    V('c18-cte-first-dml-any-level', 'C18', 'ok', None, S, "                if (token is not None and token.ttype == T.Keyword.DML\n                        and not (prev_.ttype == T.Keyword.CTE\n                                 or prev_.match(T.Keyword, 'RECURSIVE')\n                                 or prev_.match(T.Punctuation, ','))):\n                    return token.normalized", "                if token is None:\n                    break\n                if token.ttype == T.Keyword.DML and not (prev_.ttype == T.Keyword.CTE or prev_.match(T.Keyword, 'RECURSIVE') or prev_.match(T.Punctuation, ',')):\n                    return token.normalized", 'explicit break'),
     V('c08-hint-dropped', 'C08', 'bad', 'R8.3', FO, "sql_hints = (T.Comment.Multiline.Hint, T.Comment.Single.Hint)", "sql_hints = (T.Comment.Multiline.Hint,)"),
     V('c08-remove-next', 'C08', 'bad', 'R8.3', FO, "                tlist.tokens.remove(token)\n", "                tlist.tokens.remove(token)\n                tlist.tokens.remove(next_) if next_ is not None and next_.is_whitespace else None\n"),
     V('c08-case-in-stmtprocess', 'C08', 'bad', 'R8.4', FM, "        stack.preprocess.append(\n            filters.KeywordCaseFilter(options['keyword_case']))", "        stack.postprocess.append(\n            filters.KeywordCaseFilter(options['keyword_case']))"),
@@ -302,6 +302,15 @@ VARIANTS = [
     V('c06-collapse-upper', 'C06', 'bad', 'R6.10', FO, "                    token.value = ' '.join(head.split()) + (", "                    token.value = ' '.join(head.upper().split()) + (", 'a layout option changes the letter case of keywords'),
     V('c06-collapse-tz-literal', 'C06', 'bad', 'R6.10', FO, "                    head, quote, literal = token.value.partition(\"'\")\n                    token.value = ' '.join(head.split()) + (\n                        ' ' + quote + literal if quote else '')", "                    token.value = ' '.join(token.value.split())", "the literal of AT TIME ZONE '..' is rewritten"),
     V('c06-collapse-regex-ok', 'C06', 'ok', None, FO, "                    token.value = ' '.join(head.split()) + (\n                        ' ' + quote + literal if quote else '')", "                    token.value = ' '.join(head.split()) + (\n                        ' ' + quote + literal if quote != '' else '')"),
+    # ---- round 8 rules
+    V('c18-cte-dml-name-old', 'C18', 'bad', 'R18.2', S, "                if (token is not None and token.ttype == T.Keyword.DML\n                        and not (prev_.ttype == T.Keyword.CTE\n                                 or prev_.match(T.Keyword, 'RECURSIVE')\n                                 or prev_.match(T.Punctuation, ','))):", "                if token is not None and token.ttype == T.Keyword.DML:", 'the defect fixed by fcb2332'),
+    V('c18-cte-no-recursive', 'C18', 'bad', 'R18.2', S, "                                 or prev_.match(T.Keyword, 'RECURSIVE')\n", "", 'WITH RECURSIVE start AS ...'),
+    V('c11-eos-tuple-new-site', 'C11', 'bad', 'R11.5', SP, "            # Append the token to the current statement\n", "            if ttype not in EOS_TTYPE:\n                self._in_declare = self._in_declare and value != ';'\n            # Append the token to the current statement\n", 'membership in a display of types is equality: a line break is not in it'),
+    V('c11-eos-containment-ok', 'C11', 'ok', None, SP, "            # Append the token to the current statement\n", "            if ttype not in T.Whitespace and ttype not in T.Comment:\n                self._seen_token = True\n            # Append the token to the current statement\n"),
+    V('c09-align-comments-early', 'C09', 'bad', 'R9.8', G, "        group_over,\n", "        align_comments,\n        group_over,\n"),
+    V('c03-stale-index', 'C03', 'bad', 'R3.4c', G, "            tlist.group_tokens(cls, open_idx, close_idx)\n            tidx_offset += close_idx - open_idx\n", "            tlist.group_tokens(cls, open_idx, close_idx)\n            tidx_offset += close_idx - open_idx\n            last_close = tidx\n"),
+    V('c03-index-recomputed-ok', 'C03', 'ok', None, G, "            tlist.group_tokens(cls, open_idx, close_idx)\n            tidx_offset += close_idx - open_idx\n", "            tlist.group_tokens(cls, open_idx, close_idx)\n            tidx_offset += close_idx - open_idx\n            tidx = idx - tidx_offset\n"),
+    V('c01-recursive-helper', 'C01', 'bad', 'R1.13', L, ("class Lexer:\n", "        iterable = enumerate(text)\n"), ("def _skip_blanks(text, pos):\n    return _skip_blanks(text, pos + 1) if text[pos:pos + 1] == ' ' else pos\n\n\nclass Lexer:\n", "        _skip_blanks(text, 0)\n        iterable = enumerate(text)\n"), 'a run of blanks as long as the recursion limit'),
 ]
 
 WHOLE_FILE = {
